@@ -156,6 +156,17 @@ Theorem C13_forward_extensions : forall q oob,
 Proof. exact forward_extensions. Qed.
 Print Assumptions C13_forward_extensions.
 
+(* ... and the boolean form evaluated on every forwarded packet the harness sees
+   (with or without a kernel receive timestamp at the forwarder, kinds srv, srv.fwdnots):
+   the options of a forwarded packet, timestamp options aside, are exactly the options of
+   the received packet when its end-to-end extension directly follows the SCION header
+   (otherwise none), and the forwarded packet parses. *)
+Theorem C13_srv_fwdext_oracle_holds_on_model : forall mac reverse fetch_key ntp_handle socks sender k nok c q oob,
+  C13_srv_fwdext_ok (s_local_port c) q
+    (srv_obs mac socks sender k nok (server_step mac reverse fetch_key ntp_handle c q oob)) = true.
+Proof. exact srv_clause_fwdext. Qed.
+Print Assumptions C13_srv_fwdext_oracle_holds_on_model.
+
 (* Ideal MAC (no two MAC inputs share a tag under one key): a request / response
    carrying a tag made for the MAC input m0 that arrives with any covered field
    changed (authenticator algorithm or timestamp/sequence number, traffic
